@@ -6,6 +6,8 @@
    see harness/locksim.py) up to the next one.  Consecutive steps under one mutex
    that touch only state protected by that mutex are therefore merged.
 
+     OpStart       the thread leaves user code (the with-body, or the code between two requests)
+                   and starts its next operation: a request or the release of its innermost hold
      request  path_lock(p, sh, bl, re):
        TPoolIn     pool lock; get/create the thread lock of p, refcount+1
        TAcqSh      condition.acquire; recursion check; count+1; release          (shared)
@@ -16,12 +18,13 @@
        PAcq        mutex.acquire; recursion check; decide whether lockf is needed
        PKern       fcntl.lockf: granted | EAGAIN | EDEADLK | go to sleep
        PKGrant     asleep in lockf, woken by the kernel
-       Body        inside the with-body
+       (granted: back in user code)
      release (normal exit or unwinding of a refusal):
        PRel        mutex; count-1; unlock / downgrade
        PlOut       pool lock; refcount-1
-       FdOut       pool lock; refcount-1, close on last (POSIX: drops all locks of the process
-                   on that file); for an exclusive request also the release of the RLock
+       FdOut       pool lock; refcount-1; the last user goes on to close the descriptor
+       FdClose     os.close with the pool lock still held (POSIX: drops all locks of the process on
+                   that file); FdOut/FdClose of an exclusive request also release the RLock
        TRelSh      condition.acquire; count-1; notify_all when the thread's own count drops to 0
        TPoolOut    pool lock; refcount-1; the request is finished (outcome recorded)
 
@@ -39,14 +42,15 @@ CONSTANTS Thread,      \* set of thread ids (naturals)
 VARIABLES prog, ip, pc, held, unw, outcome, ghold,   \* per thread
           tref, rlo, rld, acq, saved, notified,      \* thread-level lock, per <<proc, path>>
           fdref, plref, pmx, shby, exby,             \* process-level lock, per <<proc, path>>
+          fdmx,                                      \* [Proc -> thread holding the fd pool's mutex across os.close | NoThread]
           klock,                                     \* kernel: [Path -> [Proc -> "none"|"SH"|"EX"]]
           rviol                                      \* ghost: a non-reentrant recursive request was granted
 
 tvars == <<prog, ip, pc, held, unw, outcome, ghold>>
 lvars == <<tref, rlo, rld, acq, saved, notified>>
-pvars == <<fdref, plref, pmx, shby, exby>>
+pvars == <<fdref, plref, pmx, shby, exby, fdmx>>
 vars == <<prog, ip, pc, held, unw, outcome, ghold, tref, rlo, rld, acq, saved, notified,
-          fdref, plref, pmx, shby, exby, klock, rviol>>
+          fdref, plref, pmx, shby, exby, fdmx, klock, rviol>>
 
 NoThread == 0
 Key == Proc \X Path
@@ -66,6 +70,7 @@ InitRest ==
     /\ saved = [t \in Thread |-> 0] /\ notified = {}
     /\ fdref = [k \in Key |-> 0] /\ plref = [k \in Key |-> 0] /\ pmx = [k \in Key |-> NoThread]
     /\ shby = [k \in Key |-> [t \in Thread |-> 0]] /\ exby = [k \in Key |-> [t \in Thread |-> 0]]
+    /\ fdmx = [q \in Proc |-> NoThread]
     /\ klock = [p \in Path |-> [q \in Proc |-> "none"]]
     /\ rviol = FALSE
 Init == InitProg /\ InitRest
@@ -86,8 +91,14 @@ RLFree(t) == rlo[K(t)] \in {NoThread, t}
 Others(t) == \E u \in Thread \ {t} : acq[K(t)][u] > 0
 
 \* ------------------------------------------------------------------ acquire path
+\* user code -> lock code
+OpStart(t) ==
+    /\ pc[t] = "idle" /\ ~Done(t)
+    /\ Goto(t, IF Op(t).k = "acq" THEN "tpool_in" ELSE "prel")
+    /\ UNCHANGED <<prog, ip, held, unw, outcome, ghold, lvars, pvars, klock, rviol>>
+
 TPoolIn(t) ==
-    /\ pc[t] = "idle" /\ ~Done(t) /\ Op(t).k = "acq"
+    /\ pc[t] = "tpool_in"
     /\ tref' = [tref EXCEPT ![K(t)] = @ + 1]
     /\ Goto(t, "tacq")
     /\ UNCHANGED <<prog, ip, held, unw, outcome, ghold, rlo, rld, acq, saved, notified, pvars, klock, rviol>>
@@ -143,16 +154,16 @@ TWake(t) ==
     /\ UNCHANGED <<prog, ip, held, outcome, ghold, tref, pvars, klock, rviol>>
 
 FdIn(t) ==
-    /\ pc[t] = "fd_in"
+    /\ pc[t] = "fd_in" /\ fdmx[ProcOf[t]] = NoThread
     /\ fdref' = [fdref EXCEPT ![K(t)] = @ + 1]
     /\ Goto(t, "pl_in")
-    /\ UNCHANGED <<prog, ip, held, unw, outcome, ghold, lvars, plref, pmx, shby, exby, klock, rviol>>
+    /\ UNCHANGED <<prog, ip, held, unw, outcome, ghold, lvars, plref, pmx, shby, exby, fdmx, klock, rviol>>
 
 PlIn(t) ==
     /\ pc[t] = "pl_in"
     /\ plref' = [plref EXCEPT ![K(t)] = @ + 1]
     /\ Goto(t, "pacq")
-    /\ UNCHANGED <<prog, ip, held, unw, outcome, ghold, lvars, fdref, pmx, shby, exby, klock, rviol>>
+    /\ UNCHANGED <<prog, ip, held, unw, outcome, ghold, lvars, fdref, pmx, shby, exby, fdmx, klock, rviol>>
 
 IsSh(k) == \E u \in Thread : shby[k][u] > 0
 IsEx(k) == \E u \in Thread : exby[k][u] > 0
@@ -165,23 +176,23 @@ Grant(t) ==
     /\ ghold' = [ghold EXCEPT ![t] = Append(@, Rq(t))]
     /\ outcome' = [outcome EXCEPT ![t] = Append(@, "granted")]
     /\ rviol' = (rviol \/ (~Rq(t).re /\ \E i \in 1..Len(ghold[t]) : ghold[t][i].p = Rq(t).p))
-    /\ Goto(t, "body")
+    /\ Goto(t, "idle") /\ ip' = [ip EXCEPT ![t] = @ + 1]
 
 PAcq(t) ==
     /\ pc[t] = "pacq"
     /\ IF pmx[K(t)] = NoThread
        THEN IF ~Rq(t).re /\ (shby[K(t)][t] > 0 \/ exby[K(t)][t] > 0)
             THEN /\ Refuse(t, "rec", "pl_out")
-                 /\ UNCHANGED <<pmx, shby, exby, held, ghold, outcome, rviol>>
+                 /\ UNCHANGED <<ip, pmx, shby, exby, held, ghold, outcome, rviol>>
             ELSE IF ~(IsSh(K(t)) \/ IsEx(K(t))) \/ (IsSh(K(t)) /\ ~Rq(t).sh)
                  THEN /\ pmx' = [pmx EXCEPT ![K(t)] = t]          \* lockf is called with the mutex held
                       /\ Goto(t, "pkern")
-                      /\ UNCHANGED <<unw, shby, exby, held, ghold, outcome, rviol>>
+                      /\ UNCHANGED <<ip, unw, shby, exby, held, ghold, outcome, rviol>>
                  ELSE Grant(t) /\ UNCHANGED <<pmx, unw>>
        ELSE /\ ~Rq(t).bl
             /\ Refuse(t, "wbP", "pl_out")
-            /\ UNCHANGED <<pmx, shby, exby, held, ghold, outcome, rviol>>
-    /\ UNCHANGED <<prog, ip, lvars, fdref, plref, klock>>
+            /\ UNCHANGED <<ip, pmx, shby, exby, held, ghold, outcome, rviol>>
+    /\ UNCHANGED <<prog, lvars, fdref, plref, fdmx, klock>>
 
 Compat(m1, m2) == m1 = "none" \/ m2 = "none" \/ (m1 = "SH" /\ m2 = "SH")
 Grantable(q, p, m) == \A q2 \in Proc \ {q} : Compat(klock[p][q2], m)
@@ -202,13 +213,13 @@ PKern(t) ==
             /\ Grant(t) /\ UNCHANGED unw
        ELSE IF ~Rq(t).bl
        THEN /\ Refuse(t, "wbP", "pl_out") /\ pmx' = [pmx EXCEPT ![K(t)] = NoThread]
-            /\ UNCHANGED <<klock, shby, exby, held, ghold, outcome, rviol>>
+            /\ UNCHANGED <<ip, klock, shby, exby, held, ghold, outcome, rviol>>
        ELSE IF WouldDeadlock(t)
        THEN /\ Refuse(t, "edeadlk", "pl_out") /\ pmx' = [pmx EXCEPT ![K(t)] = NoThread]
-            /\ UNCHANGED <<klock, shby, exby, held, ghold, outcome, rviol>>
+            /\ UNCHANGED <<ip, klock, shby, exby, held, ghold, outcome, rviol>>
        ELSE /\ Goto(t, "pkwait")
-            /\ UNCHANGED <<klock, pmx, unw, shby, exby, held, ghold, outcome, rviol>>
-    /\ UNCHANGED <<prog, ip, lvars, fdref, plref>>
+            /\ UNCHANGED <<ip, klock, pmx, unw, shby, exby, held, ghold, outcome, rviol>>
+    /\ UNCHANGED <<prog, lvars, fdref, plref, fdmx>>
 
 PKGrant(t) ==
     /\ pc[t] = "pkwait"
@@ -216,16 +227,11 @@ PKGrant(t) ==
     /\ klock' = [klock EXCEPT ![Rq(t).p][ProcOf[t]] = Mode(Rq(t))]
     /\ pmx' = [pmx EXCEPT ![K(t)] = NoThread]
     /\ Grant(t)
-    /\ UNCHANGED <<prog, ip, unw, lvars, fdref, plref>>
-
-Body(t) ==
-    /\ pc[t] = "body"
-    /\ Goto(t, "idle") /\ ip' = [ip EXCEPT ![t] = @ + 1]
-    /\ UNCHANGED <<prog, held, unw, outcome, ghold, lvars, pvars, klock, rviol>>
+    /\ UNCHANGED <<prog, unw, lvars, fdref, plref, fdmx>>
 
 \* ------------------------------------------------------------------ release path
 PRel(t) ==
-    /\ pc[t] = "idle" /\ ~Done(t) /\ Op(t).k = "rel"
+    /\ pc[t] = "prel"
     /\ pmx[K(t)] = NoThread
     /\ LET k == K(t)   r == Rq(t)
            sh2 == IF r.sh THEN [shby EXCEPT ![k][t] = @ - 1] ELSE shby
@@ -238,25 +244,40 @@ PRel(t) ==
                       ELSE klock
     /\ ghold' = [ghold EXCEPT ![t] = SubSeq(@, 1, Len(@) - 1)]
     /\ Goto(t, "pl_out")
-    /\ UNCHANGED <<prog, ip, held, unw, outcome, lvars, fdref, plref, pmx, rviol>>
+    /\ UNCHANGED <<prog, ip, held, unw, outcome, lvars, fdref, plref, pmx, fdmx, rviol>>
 
 PlOut(t) ==
     /\ pc[t] = "pl_out"
     /\ plref' = [plref EXCEPT ![K(t)] = @ - 1]
     /\ Goto(t, "fd_out")
-    /\ UNCHANGED <<prog, ip, held, unw, outcome, ghold, lvars, fdref, pmx, shby, exby, klock, rviol>>
+    /\ UNCHANGED <<prog, ip, held, unw, outcome, ghold, lvars, fdref, pmx, shby, exby, fdmx, klock, rviol>>
+
+\* what follows the fd pool in the unwinding: for an exclusive request the RLock is released
+\* (_lock_ex's finally needs no acquire), for a shared one the next primitive is condition.acquire
+FdTail(t) ==
+    IF Rq(t).sh
+    THEN Goto(t, "trel") /\ UNCHANGED <<acq, rlo, rld>>
+    ELSE /\ acq' = [acq EXCEPT ![K(t)][t] = @ - 1]
+         /\ rld' = [rld EXCEPT ![K(t)] = @ - 1]
+         /\ rlo' = [rlo EXCEPT ![K(t)] = IF rld[K(t)] = 1 THEN NoThread ELSE t]
+         /\ Goto(t, "tpool_out")
 
 FdOut(t) ==
-    /\ pc[t] = "fd_out"
+    /\ pc[t] = "fd_out" /\ fdmx[ProcOf[t]] = NoThread
     /\ fdref' = [fdref EXCEPT ![K(t)] = @ - 1]
-    /\ klock' = IF fdref[K(t)] = 1 THEN [klock EXCEPT ![Rq(t).p][ProcOf[t]] = "none"] ELSE klock
-    /\ IF Rq(t).sh
-       THEN Goto(t, "trel") /\ UNCHANGED <<acq, rlo, rld>>
-       ELSE /\ acq' = [acq EXCEPT ![K(t)][t] = @ - 1]            \* _lock_ex's finally: no acquire needed
-            /\ rld' = [rld EXCEPT ![K(t)] = @ - 1]
-            /\ rlo' = [rlo EXCEPT ![K(t)] = IF rld[K(t)] = 1 THEN NoThread ELSE t]
-            /\ Goto(t, "tpool_out")
-    /\ UNCHANGED <<prog, ip, held, unw, outcome, ghold, tref, saved, notified, plref, pmx, shby, exby, rviol>>
+    /\ IF fdref[K(t)] = 1
+       THEN /\ fdmx' = [fdmx EXCEPT ![ProcOf[t]] = t]           \* last user: os.close is called with the pool mutex held
+            /\ Goto(t, "fd_close") /\ UNCHANGED <<acq, rlo, rld>>
+       ELSE FdTail(t) /\ UNCHANGED fdmx
+    /\ UNCHANGED <<prog, ip, held, unw, outcome, ghold, tref, saved, notified, plref, pmx, shby, exby, klock, rviol>>
+
+\* os.close(fd): POSIX drops every record lock the process holds on that file
+FdClose(t) ==
+    /\ pc[t] = "fd_close"
+    /\ klock' = [klock EXCEPT ![Rq(t).p][ProcOf[t]] = "none"]
+    /\ fdmx' = [fdmx EXCEPT ![ProcOf[t]] = NoThread]
+    /\ FdTail(t)
+    /\ UNCHANGED <<prog, ip, held, unw, outcome, ghold, tref, saved, notified, fdref, plref, pmx, shby, exby, rviol>>
 
 Waiters(k) == {u \in Thread : pc[u] = "twait" /\ K(u) = k}
 TRelSh(t) ==
@@ -293,17 +314,18 @@ DoPlIn == \E t \in Thread : PlIn(t)
 DoPAcq == \E t \in Thread : PAcq(t)
 DoPKern == \E t \in Thread : PKern(t)
 DoPKGrant == \E t \in Thread : PKGrant(t)
-DoBody == \E t \in Thread : Body(t)
+DoOpStart == \E t \in Thread : OpStart(t)
 DoPRel == \E t \in Thread : PRel(t)
 DoPlOut == \E t \in Thread : PlOut(t)
 DoFdOut == \E t \in Thread : FdOut(t)
+DoFdClose == \E t \in Thread : FdClose(t)
 DoTRelSh == \E t \in Thread : TRelSh(t)
 DoTPoolOut == \E t \in Thread : TPoolOut(t)
 
 Step(t) == \/ TPoolIn(t) \/ TAcqSh(t) \/ TAcqEx(t) \/ TWake(t) \/ FdIn(t) \/ PlIn(t) \/ PAcq(t)
-           \/ PKern(t) \/ PKGrant(t) \/ Body(t) \/ PRel(t) \/ PlOut(t) \/ FdOut(t) \/ TRelSh(t) \/ TPoolOut(t)
+           \/ PKern(t) \/ PKGrant(t) \/ OpStart(t) \/ PRel(t) \/ PlOut(t) \/ FdOut(t) \/ FdClose(t) \/ TRelSh(t) \/ TPoolOut(t)
 Next == DoTPoolIn \/ DoTAcqSh \/ DoTAcqEx \/ DoTWake \/ DoFdIn \/ DoPlIn \/ DoPAcq \/ DoPKern
-        \/ DoPKGrant \/ DoBody \/ DoPRel \/ DoPlOut \/ DoFdOut \/ DoTRelSh \/ DoTPoolOut
+        \/ DoPKGrant \/ DoOpStart \/ DoPRel \/ DoPlOut \/ DoFdOut \/ DoFdClose \/ DoTRelSh \/ DoTPoolOut
 Spec == Init /\ [][Next]_vars
 FairSpec == Spec /\ \A t \in Thread : WF_vars(Step(t))
 
@@ -325,14 +347,14 @@ NoRecursiveGrant == ~rviol
 \* (Q)
 Quiescent == AllDone =>
     /\ \A k \in Key : tref[k] = 0 /\ fdref[k] = 0 /\ plref[k] = 0 /\ rlo[k] = NoThread /\ rld[k] = 0
-                      /\ pmx[k] = NoThread
+                      /\ pmx[k] = NoThread /\ fdmx[k[1]] = NoThread
                       /\ \A t \in Thread : acq[k][t] = 0 /\ shby[k][t] = 0 /\ exby[k][t] = 0
     /\ \A p \in Path : \A q \in Proc : klock[p][q] = "none"
 \* bookkeeping is consistent all the time
 Counters == \A k \in Key : \A t \in Thread : acq[k][t] >= 0 /\ shby[k][t] >= 0 /\ exby[k][t] >= 0
 
 \* (W) no lost wake-up: in a state without successor every unfinished thread is justified
-Acquiring(t) == pc[t] \in {"tacq", "twait", "fd_in", "pl_in", "pacq", "pkern", "pkwait"}
+Acquiring(t) == pc[t] \in {"tpool_in", "tacq", "twait", "fd_in", "pl_in", "pacq", "pkern", "pkwait"}
 Conflict(u, p, sh) == IF sh THEN GHoldsEx(u, p) ELSE GHolds(u, p)
 Direct == {t \in Thread : ~Done(t) /\ Acquiring(t) /\ unw[t] = "none"
                            /\ \E u \in Thread \ {t} : Conflict(u, Rq(t).p, Rq(t).sh)}
@@ -340,8 +362,25 @@ RECURSIVE Just(_, _)
 Just(S, n) == IF n = 0 THEN S
               ELSE Just(S \cup {t \in Thread : ~Done(t) /\ Acquiring(t) /\ unw[t] = "none"
                                   /\ \E u \in S : u # t /\ Rq(u).p = Rq(t).p /\ (~Rq(u).sh \/ ~Rq(t).sh)}, n - 1)
-Stuck == ~AllDone /\ ~ENABLED Next
+\* explicit enabledness of a thread (equal to ENABLED Step(t): invariant EnMatches), cheap to evaluate
+En(t) == /\ ~Done(t)
+         /\ CASE pc[t] = "tacq"   -> RLFree(t) \/ ~Rq(t).bl
+              [] pc[t] = "twait"  -> t \in notified /\ rlo[K(t)] = NoThread
+              [] pc[t] = "pacq"   -> pmx[K(t)] = NoThread \/ ~Rq(t).bl
+              [] pc[t] = "pkwait" -> Grantable(ProcOf[t], Rq(t).p, Mode(Rq(t)))
+              [] pc[t] = "prel"   -> pmx[K(t)] = NoThread
+              [] pc[t] = "trel"   -> RLFree(t)
+              [] pc[t] \in {"fd_in", "fd_out"} -> fdmx[ProcOf[t]] = NoThread
+              [] OTHER            -> TRUE
+EnMatches == \A t \in Thread : En(t) <=> ENABLED Step(t)
+Stuck == ~AllDone /\ \A t \in Thread : ~En(t)
 NoLostWakeup == Stuck => {t \in Thread : ~Done(t)} \subseteq Just(Direct, Cardinality(Thread))
+
+\* (W'), stronger: whenever all runnable threads are in user code (nobody is in the middle of a lock
+\* operation), every thread that is waiting inside an acquire is justified -- a waiter is not kept
+\* waiting by anything but a conflicting hold (or a queued conflicting request)
+Quiet == \A t \in Thread : En(t) => pc[t] = "idle"
+QuietJustified == Quiet => {t \in Thread : ~Done(t) /\ pc[t] # "idle"} \subseteq Just(Direct, Cardinality(Thread))
 
 \* programs without nesting cannot hold-and-wait: they always finish
 Flat(t) == \A i \in 1..(Len(prog[t]) - 1) : prog[t][i].k = "acq" => prog[t][i + 1].k = "rel"
